@@ -114,7 +114,7 @@ Theorem g2s_generated : forall lat lon h : R,
   let z := (Rc * one_minus_e2_code + h) * sin lat in
   let r := sqrt (p * p + z * z) in
   Val [asin (z / r); lon; r].
-Proof. intros. unfold C14_g2s_R. cbv zeta. val_eq; eqr. Qed.
+Proof. intros. unfold C14_g2s_R, a_code, e2_code, one_minus_e2_code. cbv zeta. val_eq; eqr. Qed.
 
 (* they are the WGS84 values (a = 6378.137 km, b = 6356.7523142 km) to 1e-15 *)
 Lemma g2s_constants :
